@@ -1139,6 +1139,9 @@ class Engine:
                 return r
         if isinstance(base, SymSeq) and attr == "shape":
             return (base.length,)
+        if attr == "item" and (is_num(base) or (isinstance(base, Vec) and len(base) == 1)):
+            # ndarray.item() / numpy scalar .item(): the single element as a python scalar
+            return Ext("item", lambda eng, _b=base: _b.items[0] if isinstance(_b, Vec) else _b)
         raise OutsideSubset("attribute {} of {!r}".format(attr, type(base).__name__))
 
     getattr_hooks = []
